@@ -264,14 +264,14 @@ func init() {
 	}
 	checks["C09"] = &CheckDef{
 		Pkgs: []string{"./control"}, Splice: true,
-		Harness: []string{"control:Verif_C09_forwarder_lifetime", "control:Verif_C09_cached_reply_id", "control:Verif_C09_udp_upstream_id", "control:Verif_C09_singleflight", "control:Verif_C09_pipelined", "control:Verif_C09_pipelined_cancel"},
+		Harness: []string{"control:Verif_C09_forwarder_lifetime", "control:Verif_C09_forwarder_idle_evict", "control:Verif_C09_cached_reply_id", "control:Verif_C09_udp_upstream_id", "control:Verif_C09_singleflight", "control:Verif_C09_pipelined", "control:Verif_C09_pipelined_cancel"},
 		MaxIter: 5000,
 		Level:   "other",
 		LevelText: "Three clauses of the property on the real code. (1) 'A retired upstream connection is closed exactly once, after its last in-flight query': cachedDnsForwarder.beginUse / endUse / retire / closeNow with two borrowing queries and a retirement as goroutines under schedule exploration (every interleaving at blocking points plus up to two preemptions at any atomic operation, schedules as symbolic inputs): an admitted query never sees its forwarder closed, the forwarder is closed exactly once when retired and idle, a retired forwarder admits nobody. (2) 'Each reply carries that client's transaction ID': DnsController.writeCachedResponse on an arbitrary packed answer (12-20 symbolic bytes, and a 1030-byte answer beyond the pooled buffer) and an arbitrary client ID: the datagram sent is the cached answer with exactly the first two bytes replaced, from the queried server's address to the client, and the cached bytes are untouched. (3) 'Whatever an upstream does (answer late, twice, for a different question)': DoUDP.ForwardDNS with the real connection pool against a model socket delivering up to three datagrams with arbitrary IDs: exactly the first datagram carrying the request's ID is returned, none is made up otherwise. (4) Concurrent identical questions: two clients call the real HandleWithResponseWriter_ at the same time (real x/sync singleflight, resolution replaced by a yielding stub returning an uncacheable NXDOMAIN), all interleavings at blocking operations: both are served exactly once under their own symbolic IDs and the replies are separate message objects. (5) The pipelined TCP upstream (newPipelinedConn, readLoop, RoundTrip, idBitmap, responseSlot) over a model stream: two queries in flight, a stray reply under an ID the connection never issued (including the two that alias a genuine ID above the table's 12 index bits) followed by the genuine replies in either order: each query gets exactly its own reply. A genuine defect was found with this check and repaired (see known_findings.json): endUse could close a retired forwarder under a query admitted just before the retirement.",
 		LevelNote: "Partial claim. Not covered: pipelining timeouts / ID reuse after cancellation with ID reuse, UDP->TCP fallback, caching under the right key - the last is covered from the cache side by C07/C08). Trusted: go/ssa, executor and its thread model (switches only at synchronisation operations), z3, miekg/dns Pack/Unpack as executed.",
 		Technique: techniqueText,
 		Explanation: "Bounded symbolic execution and schedule exploration of DNS reply ID handling, upstream ID filtering and forwarder lifetime.",
-		Bounds: map[string]string{"quick": "2 borrowers + 1 retire, <=2 preemptions; cached answers of 12/16/20 symbolic bytes, symbolic 16-bit IDs; 1-3 upstream datagrams with symbolic IDs, each echoing the question asked (either letter case) or another one; 2 concurrent clients on one uncached question; pipelined: 2 queries + 1 stray reply (5 stray IDs, both genuine orders); pipelined_cancel: 1 cancelled query, 1 later query, the late answer first", "thorough": "same (3 preemptions are out of reach within the budget)"},
+		Bounds: map[string]string{"quick": "2 borrowers + 1 retire, <=2 preemptions; 1 query + the idle evictor on one cached forwarder, <=2 preemptions; cached answers of 12/16/20 symbolic bytes, symbolic 16-bit IDs; 1-3 upstream datagrams with symbolic IDs, each echoing the question asked (either letter case) or another one; 2 concurrent clients on one uncached question; pipelined: 2 queries + 1 stray reply (5 stray IDs, both genuine orders); pipelined_cancel: 1 cancelled query, 1 later query, the late answer first", "thorough": "same (3 preemptions are out of reach within the budget)"},
 		Outside: []string{"the UDP packet-send branch after singleflight (needs sendPkt)", "DoH / DoQ forwarders, pipelined connection pool scaling", "comparison of the echoed question on the stream / pipelined / DoH transports (their IDs are allocated by dae per connection; only the UDP path, where the ID is the client's, is checked for it)", "UDP to TCP fallback", "ID collisions between concurrent clients on one pooled socket (each borrower owns its socket while it waits)"},
 		Assumptions: []string{"goroutines switch only at synchronisation operations", "sendPkt replaced by a recorder; the upstream socket is a model that returns the given datagrams then times out"},
 		QuickBudget: 10 * time.Minute, ThoroughBudget: 20 * time.Minute,
